@@ -46,14 +46,26 @@
 (* All shapes of one (operator, operands) tuple have the SAME expected     *)
 (* value: that is the coherence half of the property.                      *)
 (*                                                                         *)
+(* Families (section 8): core  + - * = < <= > >=  on Operands x Operands;  *)
+(* div  / max min;  int  the twelve integer divisions, gcd, lcm;  un  30   *)
+(* unary operators;  nul  [+] and [*] without operands;  nary / nary4 /    *)
+(* nary5  variadic calls with 3, 4, 5 operands;  iter  an accumulator that *)
+(* changes representation inside a loop;  expt;  shift  arithmetic-shift;  *)
+(* n2s / s2n / s2ng  number->string with radix, string->number on          *)
+(* numerals derived from values and on EVERY string of 1..5 characters     *)
+(* over the alphabet + - / 0 1 7 (section 6: the numeral grammar);  mix /  *)
+(* mixun  mixed exact / inexact and flonum operands;  cplx  `=` on complex *)
+(* numbers with exact parts;  ftab  the flonum table itself (validated     *)
+(* against the host's IEEE doubles by the check module).                   *)
+(*                                                                         *)
 (* Named deviations of Steel from R7RS adopted on purpose (each visible in *)
 (* Steel's own documentation / signatures):                                *)
 (*   N1  `=` takes exactly two arguments (rvals.rs number_equality(left,   *)
 (*       right), "= expected 2 arguments"); only binary `=` is generated.  *)
 (*   N2  `gcd` and `lcm` take exactly two arguments (stdlib.scm            *)
 (*       (define (gcd a b) ...)); only binary calls are generated.         *)
-(*   N3  exact-integer-sqrt, floor/, truncate/ return a LIST of the two    *)
-(*       results (printed `(q r)`), not multiple values.                   *)
+(*   N3  exact-integer-sqrt, floor/, truncate/, euclidean/ return a LIST   *)
+(*       of the two results (printed `(q r)`), not multiple values.        *)
 (*   N4  booleans print as #true / #false.                                 *)
 (*   N5  `/` and the integer divisions raise an error for an exact zero    *)
 (*       divisor (R7RS: "it is an error"); the expected class is `err`.    *)
@@ -68,6 +80,12 @@
 (*       expansion has <= 15 significant digits (then shortest round-trip  *)
 (*       = the exact expansion); otherwise the case observes               *)
 (*       (= result <exact decimal expansion>) instead of the printed form. *)
+(* Not a deviation but a consequence of a reader defect that belongs to    *)
+(* property C12: the source literal -0.0 is read as 0.0, so the negative   *)
+(* zero operand is written (- 0.0).                                        *)
+(* Operations R7RS leaves undefined are not generated: integer divisions,  *)
+(* gcd, even?/odd? on non-integers, exact-integer-sqrt of a negative       *)
+(* number, exact of inf / NaN, numerals with a zero denominator.           *)
 (***************************************************************************)
 EXTENDS Integers, Sequences, TLC, Json
 
@@ -523,6 +541,16 @@ ArithN(o, xs) ==
 \* (o x1 ... xn) for a comparison: every adjacent pair must be in the relation
 CmpN(o, xs) == RB(\A i \in 1..(Len(xs) - 1) : CmpHolds(o, NumCmp(xs[i], xs[i + 1])))
 
+\* max / min with at least one inexact operand: R7RS 6.2.6 "if any argument is inexact, then the
+\* result will also be inexact"; the larger / smaller operand by exact value, converted to a double
+\* (undetermined when that conversion would round, or when an operand is NaN)
+MaxMinMixed(o, v, w) ==
+  LET c == NumCmp(v, w)
+      pick == IF o = "max" THEN (IF c >= 0 THEN v ELSE w) ELSE (IF c <= 0 THEN v ELSE w)
+  IN IF c = 2 THEN RSkip
+     ELSE IF c = 0 /\ VClass(v) = "fin" /\ QIsZero(VVal(v)) THEN RSkip     \* 0.0 against -0.0: either
+     ELSE RF(ToFlo(pick))
+
 \* integer operators on two exact integers
 INTOPS == <<"quotient", "remainder", "modulo",
             "truncate-quotient", "truncate-remainder", "truncate/",
@@ -547,13 +575,15 @@ IntOp2(o, a, b) ==
             [] o = "euclidean/"                          -> RL2(u[1], u[2])
 
 \* unary operators on an exact number
-UNOPS == <<"+", "-", "*", "/", "<", "abs", "numerator", "denominator", "floor", "ceiling", "round",
+UNOPS == <<"+", "-", "*", "/", "<", "add1", "sub1", "abs", "numerator", "denominator", "floor", "ceiling", "round",
            "truncate", "square", "exact-integer-sqrt", "number->string", "zero?", "positive?",
            "negative?", "even?", "odd?", "exact-integer?", "integer?", "rational?", "exact?",
            "inexact?", "exact", "inexact", "exact->inexact">>
 UnEx(o, x) ==
   CASE o \in {"+", "-", "*", "/"} -> ArithN(o, <<VQ(x)>>)
     [] o = "<"            -> RB(TRUE)
+    [] o = "add1"         -> RQ(QAdd(x, QOne))
+    [] o = "sub1"         -> RQ(QSub(x, QOne))
     [] o = "abs"          -> RQ(QAbs(x))
     [] o = "numerator"    -> RQ(QInt(x.neg, x.num))
     [] o = "denominator"  -> RQ(QInt(FALSE, x.den))
@@ -769,6 +799,9 @@ S2NArgs(q, v) == <<StrLit(S2NText(q, v))>> \o (CASE v = "hex" -> <<"16">> [] v =
 (*  fnlitR / fnlitL  inside a function with one literal operand (the JIT   *)
 (*           specialises on the inferred type of a literal operand)        *)
 (*  fnloop   inside a self-tail-calling loop, result carried in a parameter*)
+(*  fncap    operands are captured variables of a closure                  *)
+(*  glob / fnglob   operands are global variables (read at top level /     *)
+(*           inside a function)                                            *)
 (*  if / fnif / fniflitR   result consumed as a branch condition           *)
 
 RECURSIVE JoinSp(_)
@@ -782,22 +815,28 @@ Bindings(xs, es, i) == IF i > Len(xs) THEN ""
                        ELSE "(" \o xs[i] \o " " \o es[i] \o ")" \o (IF i < Len(xs) THEN " " ELSE "")
                             \o Bindings(xs, es, i + 1)
 
+RECURSIVE Globals(_, _)
+Globals(es, i) == IF i > Len(es) THEN ""
+                  ELSE "(define c10g" \o ToString(i) \o "-@@ " \o es[i] \o ")" \o (IF i < Len(es) THEN " " ELSE "")
+                       \o Globals(es, i + 1)
+
 \* N7: a flonum result that the model cannot print is observed through numeric equality
 \* with its exact decimal expansion
 NeedsEq(r) == r.t = "fl" /\ ~FShort(r.f)
-Obs(e, r) == IF NeedsEq(r)
-             THEN "((lambda (c10r) (list (inexact? c10r) (= c10r " \o FExactLit(r.f) \o "))) " \o e \o ")"
-             ELSE e
-Expected(r) == IF r.t = "err" THEN "" ELSE IF NeedsEq(r) THEN "(#true #true)" ELSE RStr(r)
 
 Shapes(o, ls, r, full) ==
   LET n   == Len(ls)
       xs  == [i \in 1..n |-> "x" \o ToString(i)]
       oq  == [i \in 1..n |-> Opq(ls[i])]
-      txt == Expected(r)
+      ne  == NeedsEq(r)
+      txt == IF r.t = "err" THEN "" ELSE IF ne THEN "(#true #true)" ELSE RStr(r)
       tf  == IF r.t = "bool" THEN (IF r.b THEN "T" ELSE "F") ELSE ""
       F   == "c10f@@"
-      Em(e) == "(emit " \o Obs(e, r) \o ")"
+      gs  == [i \in 1..n |-> "c10g" \o ToString(i) \o "-@@"]          \* global variables holding the operands
+      obsL == IF ne THEN "((lambda (c10r) (list (inexact? c10r) (= c10r " \o FExactLit(r.f) \o "))) " ELSE ""
+      obsR == IF ne THEN ")" ELSE ""
+      Obs(e) == obsL \o e \o obsR
+      Em(e) == "(emit " \o Obs(e) \o ")"
       Def(ps, body) == "(define (" \o F \o JoinSp(ps) \o ") " \o body \o ")"
       T(sh, def, src, t) == [sh |-> sh, def |-> def, src |-> src, emit |-> t]
       base == << T("fold", "", Em(Call(o, ls)), txt),
@@ -808,7 +847,11 @@ Shapes(o, ls, r, full) ==
               THEN << T("fnlitR", Def(Front(xs), Call(o, Front(xs) \o <<ls[n]>>)), Em(Call(F, Front(oq))), txt) >>
               ELSE << >>
       more == << T("let", "", Em("(let (" \o Bindings(xs, oq, 1) \o ") " \o Call(o, xs) \o ")"), txt),
-                 T("fnarg", Def(xs, "(emit " \o Obs(Call(o, xs), r) \o ") (quote done)"), Call(F, oq), txt),
+                 T("fnarg", Def(xs, "(emit " \o Obs(Call(o, xs)) \o ") (quote done)"), Call(F, oq), txt),
+                 T("fncap", "(define " \o F \o " (let (" \o Bindings(xs, oq, 1) \o ") (lambda () " \o Call(o, xs) \o ")))",
+                   Em(Call(F, << >>)), txt),
+                 T("glob", Globals(oq, 1), Em(Call(o, gs)), txt),
+                 T("fnglob", Globals(oq, 1) \o " (define (" \o F \o ") " \o Call(o, gs) \o ")", Em(Call(F, << >>)), txt),
                  T("fnloop", Def(<<"k">> \o xs \o <<"acc">>,
                                  "(if (<= k 0) acc " \o Call(F, <<"(- k 1)">> \o xs \o <<Call(o, xs)>>) \o ")"),
                    Em(Call(F, <<"2">> \o oq \o <<"#f">>)), txt) >>
@@ -826,6 +869,36 @@ Shapes(o, ls, r, full) ==
                        ELSE << >>)
   IN IF full THEN base \o litr \o more \o lits \o cond ELSE base \o litr
 
+\* Accumulation shapes (family "iter"): acc := (o acc x), three times, starting from a.  The
+\* accumulator changes representation while the same (native) code runs: fixnum -> bignum,
+\* ratio -> integer, ...  Expected value: (o (o (o a x) x) x).
+IterShapes(o, la, lx, r) ==
+  LET txt == IF r.t = "err" THEN "" ELSE RStr(r)
+      F   == "c10f@@"
+      A   == Opq(la)
+      X   == Opq(lx)
+      T(sh, def, src, t) == [sh |-> sh, def |-> def, src |-> src, emit |-> t]
+      Step(acc, x) == Call(o, <<acc, x>>)
+  IN << T("nest", "", "(emit " \o Step(Step(Step(A, X), X), X) \o ")", txt),
+        T("fnnest", "(define (" \o F \o " a x) " \o Step(Step(Step("a", "x"), "x"), "x") \o ")",
+          "(emit " \o Call(F, <<A, X>>) \o ")", txt),
+        T("fnacc", "(define (" \o F \o " k acc x) (if (<= k 0) acc " \o Call(F, <<"(- k 1)", Step("acc", "x"), "x">>) \o "))",
+          "(emit " \o Call(F, <<"3", A, X>>) \o ")", txt),
+        T("fnacclit", "(define (" \o F \o " k acc) (if (<= k 0) acc " \o Call(F, <<"(- k 1)", Step("acc", lx)>>) \o "))",
+          "(emit " \o Call(F, <<"3", A>>) \o ")", txt),
+        T("namedlet", "",
+          "(emit (let c10loop ((k 3) (acc " \o A \o ") (x " \o X \o ")) (if (<= k 0) acc (c10loop (- k 1) "
+             \o Step("acc", "x") \o " x))))", txt),
+        T("fnset", "(define (" \o F \o " acc x) (set! acc " \o Step("acc", "x") \o ") (set! acc " \o Step("acc", "x")
+             \o ") (set! acc " \o Step("acc", "x") \o ") acc)",
+          "(emit " \o Call(F, <<A, X>>) \o ")", txt) >>
+
+\* complex numbers with exact parts, only through `=` (componentwise equality)
+CPX(lit, re, im) == [lit |-> lit, re |-> re, im |-> im]
+CX == << CPX("1+2i", QOne, QTwo), CPX("2+1i", QTwo, QOne), CPX("1+1i", QOne, QOne), CPX("2+2i", QTwo, QTwo),
+         CPX("1-2i", QOne, QNeg(QTwo)), CPX("1/2+2i", QHalf, QTwo),
+         CPX("9223372036854775808+2i", Ip(P63), QTwo) >>
+
 -----------------------------------------------------------------------------
 (* 8. The generator: families, operand choice, expected result *)
 
@@ -833,10 +906,10 @@ CORE  == <<"+", "-", "*", "=", "<", "<=", ">", ">=">>
 DIVS  == <<"/", "max", "min">>
 NARY  == <<"+", "-", "*", "/", "<", "<=", ">", ">=">>
 NARY4 == <<"+", "-", "*">>
-MIXOPS == <<"+", "-", "*", "/", "=", "<", "<=", ">", ">=">>
+MIXOPS == <<"+", "-", "*", "/", "=", "<", "<=", ">", ">=", "max", "min">>
 
-FAMS == {"core", "div", "int", "un", "nul", "nary", "nary4", "nary5", "expt", "shift",
-         "n2s", "s2n", "s2ng", "mix", "mixun", "ftab"}
+FAMS == {"core", "div", "int", "un", "nul", "nary", "nary4", "nary5", "iter", "expt", "shift",
+         "n2s", "s2n", "s2nf", "s2ng", "mix", "mixun", "cplx", "ftab"}
 
 Ops(f) == CASE f = "core"  -> CORE
             [] f = "div"   -> DIVS
@@ -844,11 +917,12 @@ Ops(f) == CASE f = "core"  -> CORE
             [] f = "un"    -> UNOPS
             [] f = "nul"   -> <<"+", "*">>
             [] f = "nary"  -> NARY
-            [] f \in {"nary4", "nary5"} -> NARY4
+            [] f \in {"nary4", "nary5", "iter"} -> NARY4
+            [] f = "cplx"  -> <<"=">>
             [] f = "expt"  -> <<"expt">>
             [] f = "shift" -> <<"arithmetic-shift">>
             [] f = "n2s"   -> <<"number->string">>
-            [] f \in {"s2n", "s2ng"} -> <<"string->number">>
+            [] f \in {"s2n", "s2nf", "s2ng"} -> <<"string->number">>
             [] f = "mix"   -> MIXOPS
             [] f = "mixun" -> FUNOPS
             [] f = "ftab"  -> <<"table">>
@@ -859,10 +933,13 @@ Choices(f) == CASE f \in {"core", "div"} -> <<NX, NX>>
                 [] f = "un"    -> <<NX>>
                 [] f \in {"nul", "ftab"} -> <<1>>
                 [] f \in {"nary", "nary4", "nary5"} -> <<Len(RX), Len(RX), Len(RX)>>
+                [] f = "iter"  -> <<NX, Len(RX)>>
+                [] f = "cplx"  -> <<Len(CX), Len(CX)>>
                 [] f = "expt"  -> <<NX, Len(EXPS)>>
                 [] f = "shift" -> <<Len(SX), Len(SHIFTS)>>
                 [] f = "n2s"   -> <<NX, Len(RADIXES)>>
                 [] f = "s2n"   -> <<NX, Len(S2NVARIANTS)>>
+                [] f = "s2nf"  -> <<NF>>
                 [] f = "s2ng"  -> <<Len(ALPHA), Len(ALPHA) + 1, Len(ALPHA) + 1, Len(ALPHA) + 1, Len(ALPHA) + 1>>
                 [] f = "mix"   -> <<NM, NM>>
                 [] f = "mixun" -> <<NF>>
@@ -872,9 +949,11 @@ Modulus(f) == CASE f = "core" -> M_CORE
                 [] f = "int" -> M_INT
                 [] f \in {"nul", "ftab"} -> 1
                 [] f \in {"un", "mixun"} -> M_UN
-                [] f \in {"nary", "nary4", "nary5"} -> M_NARY
+                [] f \in {"nary", "nary4", "nary5", "iter"} -> M_NARY
+                [] f = "cplx" -> 1
                 [] f \in {"expt", "shift"} -> M_EXPT
                 [] f \in {"n2s", "s2n", "s2ng"} -> M_STR
+                [] f = "s2nf" -> 1
                 [] f = "mix" -> M_MIX
 
 \* seeded slice of a family: every case has a hash; it is kept when hash = 0 modulo the family's modulus
@@ -888,7 +967,9 @@ Selected(f, o, s) == Modulus(f) = 1
 Operands(f, s) ==
   CASE f \in {"core", "div", "int"} -> <<VQ(EX[s[1]]), VQ(EX[s[2]])>>
     [] f = "un"    -> <<VQ(EX[s[1]])>>
-    [] f \in {"nul", "ftab", "s2ng"} -> << >>
+    [] f \in {"nul", "ftab", "s2ng", "cplx"} -> << >>
+    [] f = "s2nf"  -> <<FLOS[s[1]]>>
+    [] f = "iter"  -> <<VQ(EX[s[1]]), VQ(EX[RX[s[2]]])>>
     [] f = "nary"  -> <<VQ(EX[RX[s[1]]]), VQ(EX[RX[s[2]]]), VQ(EX[RX[s[3]]])>>
     [] f = "nary4" -> <<VQ(EX[RX[s[1]]]), VQ(EX[RX[s[2]]]), VQ(EX[RX[s[3]]]), VQ(EX[RX[s[1]]])>>
     [] f = "nary5" -> <<VQ(EX[RX[s[1]]]), VQ(EX[RX[s[2]]]), VQ(EX[RX[s[3]]]), VQ(EX[RX[s[2]]]), VQ(EX[RX[s[1]]])>>
@@ -910,6 +991,8 @@ S2ngChars(s) == [i \in 1..S2ngLen(s) |-> IF i = 1 THEN ALPHA[s[1]] ELSE ALPHA[s[
 Args(f, s) ==
   CASE f = "s2n"  -> S2NArgs(EX[s[1]], S2NVARIANTS[s[2]])
     [] f = "s2ng" -> <<StrLit(Concat(S2ngChars(s)))>>
+    [] f = "cplx" -> <<CX[s[1]].lit, CX[s[2]].lit>>
+    [] f = "s2nf" -> <<StrLit(IF FLOS[s[1]].lit = "(- 0.0)" THEN "-0.0" ELSE FLOS[s[1]].lit)>>   \* the numeral as a string
     [] OTHER      -> LET xs == Operands(f, s) IN [i \in 1..Len(xs) |-> Lit(xs[i])]
 
 \* the expected result
@@ -923,12 +1006,17 @@ Eval(f, o, s) ==
     [] f = "un"    -> UnEx(o, xs[1].q)
     [] f = "nul"   -> ArithN(o, xs)
     [] f \in {"nary", "nary4", "nary5"} -> IF o \in ARITH THEN ArithN(o, xs) ELSE CmpN(o, xs)
+    [] f = "iter"  -> ArithN(o, <<xs[1], xs[2], xs[2], xs[2]>>)
+    [] f = "cplx"  -> RB(CX[s[1]].re = CX[s[2]].re /\ CX[s[1]].im = CX[s[2]].im)
     [] f = "expt"  -> IF QIsZero(xs[1].q) /\ EXPS[s[2]] < 0 THEN RErr ELSE RQ(QExpt(xs[1].q, EXPS[s[2]]))
     [] f = "shift" -> RQ(QShift(xs[1].q, SHIFTS[s[2]]))
     [] f = "n2s"   -> RS(QStrRadix(xs[1].q, RADIXES[s[2]]))
     [] f = "s2n"   -> RQ(xs[1].q)
     [] f = "s2ng"  -> ParseExact(S2ngChars(s))
-    [] f = "mix"   -> IF o \in ARITH THEN ArithN(o, xs) ELSE CmpN(o, xs)
+    [] f = "s2nf"  -> RF(xs[1].f)
+    [] f = "mix"   -> IF o \in ARITH THEN ArithN(o, xs)
+                      ELSE IF o \in CMPS THEN CmpN(o, xs)
+                      ELSE MaxMinMixed(o, xs[1], xs[2])
     [] f = "mixun" -> UnFl(o, xs[1].f)
 
 \* which families get the full shape set
@@ -941,8 +1029,18 @@ RECURSIVE Tuples(_, _)       \* all completions of a partial index tuple
 Tuples(f, s) == IF Len(s) = Len(Choices(f)) THEN {s}
                 ELSE UNION {Tuples(f, Append(s, j)) : j \in 1..Choices(f)[Len(s) + 1]}
 
-Admissible(f, s) ==
-  CASE f = "mix"  -> ~(IsEx(MX[s[1]]) /\ IsEx(MX[s[2]]))            \* at least one flonum
+\* the largest double and the smallest subnormal make every exact operation on them hundreds of
+\* limbs long: they take part in comparisons with a few partners and in the cheap unary operators only
+EXTREME == {25, 26}                                                  \* rows of FLOS
+ASSUME FLOS[25].f.e = 971 /\ FLOS[26].f.e = -1074
+XPARTNERS == {1, 5, 24, 25, 26, 27, 28, 29} \cup {NF + 1, NF + 2, NF + 3, NF + 16, NF + 17, NF + 22}
+XUNOPS == {"-", "abs", "zero?", "positive?", "negative?", "integer?", "rational?", "exact?", "inexact?",
+           "nan?", "infinite?", "finite?", "inexact"}
+Admissible(f, o, s) ==
+  CASE f = "mix"  -> /\ ~(IsEx(MX[s[1]]) /\ IsEx(MX[s[2]]))         \* at least one flonum
+                     /\ (s[1] \in EXTREME \/ s[2] \in EXTREME) =>
+                          (o \in CMPS /\ s[1] \in XPARTNERS /\ s[2] \in XPARTNERS)
+    [] f = "mixun" -> s[1] \in EXTREME => o \in XUNOPS
     [] f = "expt" -> LET k == EXPS[s[2]]                             \* keep the powers below ~70 limbs
                          b == EX[s[1]]
                      IN (Len(b.num) + Len(b.den)) * (IF k < 0 THEN -k ELSE k) <= 70
@@ -951,7 +1049,7 @@ Admissible(f, s) ==
     [] OTHER      -> TRUE
 
 Pick == /\ ~done
-        /\ \E s \in Tuples(fam, ix) : /\ Admissible(fam, s)
+        /\ \E s \in Tuples(fam, ix) : /\ Admissible(fam, op, s)
                                        /\ Selected(fam, oi, s)
                                        /\ ix' = s
         /\ done' = TRUE
@@ -967,17 +1065,17 @@ FtabRows == [i \in 1..NF |-> [lit |-> FLOS[i].lit, c |-> FLOS[i].f.c, neg |-> FL
                               exact |-> IF FLOS[i].f.c = "fin" THEN FExactLit(FLOS[i].f) ELSE "",
                               printed |-> IF FShort(FLOS[i].f) THEN FStr(FLOS[i].f) ELSE ""]]
 
-CaseOf ==
-  IF fam = "ftab" THEN [fam |-> fam, rows |-> FtabRows]
-  ELSE LET r  == Eval(fam, op, ix)
-           xs == Operands(fam, ix)
-       IN [fam |-> fam, op |-> op, args |-> Args(fam, ix),
-           cls |-> IF r.t = "err" THEN "err" ELSE "ok",
-           exp |-> Expected(r),
-           rep |-> [i \in 1..Len(xs) |-> VRep(xs[i])] \o <<RRep(r)>>,
-           tests |-> Shapes(op, Args(fam, ix), r, FullShapes(fam, op))]
+CaseOf(r) ==
+  LET xs == Operands(fam, ix)
+  IN [fam |-> fam, op |-> op, args |-> Args(fam, ix),
+      cls |-> IF r.t = "err" THEN "err" ELSE "ok",
+      rep |-> [i \in 1..Len(xs) |-> VRep(xs[i])] \o <<RRep(r)>>,
+      tests |-> IF fam = "iter" THEN IterShapes(op, Args(fam, ix)[1], Args(fam, ix)[2], r)
+                ELSE Shapes(op, Args(fam, ix), r, FullShapes(fam, op))]
 
-Emit == (done /\ (fam = "ftab" \/ Eval(fam, op, ix).t # "skip")) => PrintT(<<"REPLAY", ToJson(CaseOf)>>)
+Emit == done =>
+          IF fam = "ftab" THEN PrintT(<<"REPLAY", ToJson([fam |-> fam, rows |-> FtabRows])>>)
+          ELSE LET r == Eval(fam, op, ix) IN r.t # "skip" => PrintT(<<"REPLAY", ToJson(CaseOf(r))>>)
 
 TypeOK == /\ fam \in FAMS /\ oi \in 1..Len(Ops(fam)) /\ op = Ops(fam)[oi]
           /\ done \in BOOLEAN
